@@ -328,7 +328,7 @@ type badCase struct {
 	Rows int     `json:"rows"` // matrix shape mutations
 }
 
-var badKinds = []string{"column-typed-sequence", "illegal-letter", "different-alphabets", "nil-alphabet", "ungapped-alphabet", "mixed-types", "ragged-matrix", "short-matrix", "empty-matrix", "short-row"}
+var badKinds = []string{"column-typed-sequence", "illegal-letter", "different-alphabets", "nil-alphabet", "ungapped-alphabet", "mixed-types", "ragged-matrix", "ragged-matrix-same-cell-count", "short-matrix", "empty-matrix", "short-row"}
 
 func checkBad(b badCase) *vlib.Failure {
 	c := b.C
@@ -420,6 +420,13 @@ func checkBad(b badCase) *vlib.Failure {
 	case "ragged-matrix":
 		row := b.Rows % len(m)
 		m[row] = append(m[row], 0)
+	case "ragged-matrix-same-cell-count":
+		// one row too long, another too short by as much: the number of cells is that of a square matrix
+		row := b.Rows % len(m)
+		other := (row + 1 + b.Pos%(len(m)-1)) % len(m)
+		d := 1 + b.Bad%2
+		m[row] = append(append([]int(nil), m[row]...), make([]int, d)...)
+		m[other] = m[other][:len(m[other])-d]
 	case "short-row":
 		row := b.Rows % len(m)
 		m[row] = m[row][:len(m[row])-1]
